@@ -10,7 +10,8 @@ from ..core import Unsupported, box, decide, is_special, is_sym, raw, r_add, r_c
 
 PHI = z3.Function("Phi", z3.RealSort(), z3.RealSort())
 PHIINV = z3.Function("PhiInv", z3.RealSort(), z3.RealSort())
-REAL_PHI = [None]   # harness may set concrete-mode delegates (scipy) for conformance runs
+REAL_PHI = [None]
+NUMERIC_BRACKETS = [False]   # bracket Phi / Phi^-1 at symbolic arguments between tabulated true values (makes counter-models replayable)   # harness may set concrete-mode delegates (scipy) for conformance runs
 
 
 def _real_norm():
@@ -19,10 +20,55 @@ def _real_norm():
     return st.norm
 
 
+_GRID = {}
+
+
+def _grid():
+    """numeric facts about the normal distribution used as monotone bracketing axioms (sound: true values +-1e-9)"""
+    if not _GRID:
+        from fractions import Fraction as _F
+
+        nrm = _real_norm()
+        ps = sorted({m * 10.0 ** -k for k in range(1, 17) for m in (1, 1.5, 2, 3, 5, 7)} | {1 - m * 10.0 ** -k for k in range(2, 16) for m in (1, 1.5, 2, 3, 5, 7)}
+                    | {0.15, 0.25, 0.35, 0.4, 0.45, 0.5, 0.55, 0.6, 0.65, 0.75, 0.85})
+        ps = [p for p in ps if 0 < p < 1]
+        _GRID["ppf"] = [(_F(p), _F(float(nrm.ppf(p)))) for p in ps]
+        zs = [x / 8 for x in range(-68, 69)]
+        _GRID["cdf"] = [(_F(z), _F(float(nrm.cdf(z)))) for z in zs]
+    return _GRID
+
+
+def _bracket_cs(arg, val, table):
+    from fractions import Fraction as _F
+
+    eps = _F(1, 10 ** 9)
+    cs = []
+    for x, y in table:
+        cs.append(z3.Implies(arg <= to_z3(x), val <= to_z3(y + eps * (1 + abs(y)))))
+        cs.append(z3.Implies(arg >= to_z3(x), val >= to_z3(y - eps * (1 + abs(y)))))
+    return cs
+
+
+def _bracket(ex, arg, val, table):
+    ex.assume(z3.And(_bracket_cs(arg, val, table)), axiom=True)
+
+
+def bracket_constraints(ex):
+    """true numeric facts about Phi / Phi^-1 for every term registered on this path (used to make counter-models
+    realistic before they are replayed; not used for proving, where they only slow the solver down)"""
+    out = []
+    for kind, arg, val in ex.memo.get(("norm_terms",), []):
+        if not z3.is_rational_value(z3.simplify(arg)):
+            out += _bracket_cs(arg, val, _grid()["cdf" if kind == "phi" else "ppf"])
+    return out
+
+
 def _register(kind, arg, val):
     """add axiom instances for a new term val = kind(arg)."""
     ex = core.cur()
     R = z3.RealVal
+    if NUMERIC_BRACKETS[0] and not z3.is_rational_value(z3.simplify(arg)):
+        _bracket(ex, arg, val, _grid()["cdf" if kind == "phi" else "ppf"])
     if kind == "phi":
         ex.assume(z3.And(val > 0, val < 1), axiom=True)
         ex.assume(z3.And(z3.Implies(arg == 0, val == R("1/2")), z3.Implies(arg > 0, val > R("1/2")), z3.Implies(arg < 0, val < R("1/2"))), axiom=True)
